@@ -4,6 +4,7 @@ import IvpModel.Driver.SolveDrv
 import IvpModel.Driver.LuDrv
 import IvpModel.Driver.PyDrv
 import IvpModel.Driver.RadauDrv
+import IvpModel.Driver.BdfDrv
 
 def main (args : List String) : IO UInt32 := do
   let stdin ← IO.getStdin
@@ -14,6 +15,9 @@ def main (args : List String) : IO UInt32 := do
       return 0
   | ["lu"] =>
       for o in Drv.Lu.run lines do IO.println o
+      return 0
+  | ["bdf"] =>
+      for o in Drv.Bdf.run lines do IO.println o
       return 0
   | ["radau"] =>
       for o in Drv.Radau.run lines do IO.println o
